@@ -46,6 +46,45 @@ def free_vars(t, limit=10000):
     return out
 
 
+def abstract_monomials(t):
+    """Sum-of-monomials normal form, then every non-linear monomial becomes a fresh real variable.
+
+    The result over-approximates the original formula (sound for 'unsat')."""
+    t = z3.simplify(t, som=True, som_blowup=10**7)
+    table, memo = {}, {}
+
+    def walk(x):
+        i = x.get_id()
+        if i in memo:
+            return memo[i]
+        if z3.is_app(x) and x.decl().kind() == z3.Z3_OP_MUL:
+            coeff, factors = [], []
+            for c in x.children():
+                (coeff if (z3.is_rational_value(c) or z3.is_int_value(c)) else factors).append(c)
+            if len(factors) >= 2:
+                key = tuple(sorted(f.sexpr() for f in factors))
+                v = table.get(key)
+                if v is None:
+                    v = z3.Real(f"mono!{len(table)}") if z3.is_real(x) else z3.Int(f"mono!{len(table)}")
+                    table[key] = v
+                r = v
+                for c in coeff:
+                    r = c * r
+                memo[i] = r
+                return r
+        if z3.is_app(x) and x.num_args() > 0:
+            kids = [walk(c) for c in x.children()]
+            try:
+                r = x.decl()(*kids)
+            except z3.Z3Exception:
+                r = x
+            memo[i] = r
+            return r
+        memo[i] = x
+        return x
+    return walk(t), len(table)
+
+
 class Q:
     """One solver query: assumptions /\\ guard /\\ not claim."""
 
@@ -57,6 +96,9 @@ class Q:
         self.extra = extra or []
 
 
+SOM = {"on": False}
+
+
 def check_sat(assertions, timeout_ms, want_model=True):
     s = z3.Solver()
     s.set("timeout", int(timeout_ms))
@@ -66,7 +108,13 @@ def check_sat(assertions, timeout_ms, want_model=True):
             continue
         if a is False:
             return "unsat", None, 0.0
-        s.add(V.to_z3(a))
+        a = V.to_z3(a)
+        if SOM["on"]:
+            # polynomial normal form (sum of monomials) by z3's rewriter: identities fold to true/false
+            a = z3.simplify(a, som=True, som_blowup=10**7)
+            if z3.is_false(a):
+                return "unsat", None, 0.0
+        s.add(a)
     t = time.time()
     try:
         r = str(s.check())
@@ -198,7 +246,7 @@ class Worker:
         self.res = Result()
 
     def discharge(self, name, assumptions, claim, guard=True, concretize=None, known_preds=None, sample=False,
-                  lemmas=()):
+                  lemmas=(), witness_bounds=None, first_timeout_ms=None, abstract_nonlinear=False):
         """Decide `assumptions /\\ guard => claim`.
 
         known_preds: {finding_id: z3 predicate}; predicates of findings listed in known_findings.json are excluded from
@@ -222,7 +270,25 @@ class Worker:
             if any(V.simp_bool(x) is not True for x in base + [neg] + excl) else z3.BoolVal(True)
         h = term_hash(goal)
         nv = len(free_vars(goal))
-        verdict, model, dt = check_sat([goal], self.timeout_ms)
+        verdict, model, dt = None, None, 0.0
+        if abstract_nonlinear:
+            ag, nmono = abstract_monomials(goal)
+            va, _, dta = check_sat([ag], first_timeout_ms or self.timeout_ms, want_model=False)
+            dt += dta
+            if va == "unsat":
+                verdict = "unsat"
+        if verdict is None:
+            verdict, model, dt2 = check_sat([goal], first_timeout_ms or self.timeout_ms)
+            dt += dt2
+        if verdict not in ("unsat", "sat") and witness_bounds:
+            # not decided quickly (non-linear): look for a witness inside small value bounds; a model is a counterexample
+            # whatever the bounds, while 'unsat' under bounds decides nothing -> stays inconclusive
+            for wbs in (witness_bounds if witness_bounds and isinstance(witness_bounds[0], (list, tuple)) else [witness_bounds]):
+                v2, m2, dt2 = check_sat([goal] + list(wbs), min(self.timeout_ms, 15000))
+                dt += dt2
+                if v2 == "sat":
+                    verdict, model = "sat", m2
+                    break
         q = {"name": name, "verdict": verdict, "time": round(dt, 4), "hash": h, "nvars": nv, "config": self.config}
         self.res.queries.append(q)
         if sample and len(self.res.samples) < 3:
@@ -234,7 +300,13 @@ class Worker:
                     "input": jsonable(concretize(model)) if concretize else None}
             self.res.candidates.append(cand)
         for fid, pred in listed.items():
-            v2, m2, dt2 = check_sat(base + [neg, pred], self.timeout_ms)
+            v2, m2, dt2 = check_sat(base + [neg, pred], first_timeout_ms or self.timeout_ms)
+            if v2 not in ("unsat", "sat") and witness_bounds:
+                for wbs in (witness_bounds if isinstance(witness_bounds[0], (list, tuple)) else [witness_bounds]):
+                    v3, m3, dt3 = check_sat(base + [neg, pred] + list(wbs), min(self.timeout_ms, 15000))
+                    if v3 == "sat":
+                        v2, m2 = "sat", m3
+                        break
             self.res.queries.append({"name": name + f"[known:{fid}]", "verdict": v2, "time": round(dt2, 4),
                                      "hash": term_hash(V.to_z3(pred)) + h[:4], "nvars": nv, "config": self.config,
                                      "known_probe": True})
